@@ -391,6 +391,11 @@ func (t *Dense) ShallowClone() *Dense {
 
 	retVal.old = t.old
 	retVal.transposeWith = t.transposeWith
+	if !t.old.IsZero() {
+		// the clone owns its transposition bookkeeping: UT or ReturnTensor of either object recycles these slices
+		retVal.old = t.old.Clone()
+		retVal.transposeWith = append(make([]int, 0, len(t.transposeWith)), t.transposeWith...)
+	}
 	retVal.viewOf = t.viewOf
 	retVal.mask = t.mask
 	retVal.maskIsSoft = t.maskIsSoft
